@@ -35,6 +35,7 @@ var brMasks = map[string]string{
 	"C05": "000000011111",
 	"C06": "000001100111",
 	"C16": "111000000010",
+	"C17": "000011111111", // deposit acceptance and withdrawal-address decoding as the bridge uses them
 	"C18": "111111111111",
 	"C19": "111111111111",
 	"C20": "000011100111", // parameters, and what a deposit credits under them (dequeued transactions)
@@ -369,6 +370,14 @@ func (w *brWorld) history(nops int) {
 					w.st.Count("deposit-output-near-miss:" + how)
 				}
 				outs = []btcOut{{val, pay}, {0, scriptOpReturn(append(append([]byte{}, magic...), evm...))}}
+				switch r.Intn(8) {
+				case 0: // change behind the data output
+					outs = append(outs, btcOut{int64(1000 + r.Intn(5000)), scriptP2WPKH(r.Bytes(20))})
+					w.st.Count("v1-deposit-with-3-outputs:change")
+				case 1: // a second data output naming another EVM address
+					outs = append(outs, btcOut{0, scriptOpReturn(append(append([]byte{}, magic...), r.Bytes(20)...))})
+					w.st.Count("v1-deposit-with-3-outputs:second-data-output")
+				}
 			}
 			d.tx = mkTx(r, outs, r.Intn(2))
 			w.allTxOuts[string(d.tx.Txid)] = outs
@@ -511,6 +520,9 @@ func (w *brWorld) history(nops int) {
 			var tC, nC, mC []string
 			if r.Chance(15) {
 				x := [2]uint64{genU64(r), genU64(r)}
+				if r.Chance(40) { // around the 100 % boundary, with a cap that does not bite
+					x = [2]uint64{[]uint64{9999, 10000, 10000, 10001, 5000}[r.Intn(5)], []uint64{0, 100000000, 1 << 40}[r.Intn(3)]}
+				}
 				q.DepositTax = append(q.DepositTax, &goattypes.DepositTaxRequest{Rate: x[0], Max: x[1]})
 				tC = append(tC, cTuple(fmt.Sprint(x[0]), fmt.Sprint(x[1])))
 			}
@@ -585,6 +597,10 @@ func (w *brWorld) history(nops int) {
 				bump = 0
 			}
 			tx, fee := w.buildPayout(pw.ids, r.Chance(50), w.procFee(pw.pid)+bump)
+			if bump == 0 {
+				fee = w.procFee(pw.pid) // another transaction at exactly the fee already voted
+				w.st.Count("replace:equal-fee")
+			}
 			if r.Chance(5) {
 				tx = pw.txs[0]
 			}
@@ -646,6 +662,10 @@ func (w *brWorld) history(nops int) {
 				hdr[3] ^= 1
 			case 4:
 				proof = append(append([]byte{}, proof...), r.Bytes(32)...)
+			case 5, 6:
+				idx += uint32(1+r.Intn(3)) << uint(len(proof)/32) // same low bits, another position
+			case 7:
+				idx |= 1 << 31
 			}
 			prop, propCoq := w.proposerField()
 			before := w.dump()
@@ -947,7 +967,7 @@ func (w *brWorld) genBtcAddress() (string, []byte) {
 func (w *brWorld) genBtcAddress0() (string, []byte) {
 	r := w.r
 	h20, h32 := r.Bytes(20), r.Bytes(32)
-	switch r.Intn(12) {
+	switch r.Intn(13) {
 	case 0:
 		a, _ := btcutil.NewAddressPubKeyHash(h20, btcNet)
 		return a.EncodeAddress(), scriptP2PKH(h20)
@@ -970,6 +990,9 @@ func (w *brWorld) genBtcAddress0() (string, []byte) {
 	case 10:
 		a, _ := btcutil.NewAddressWitnessPubKeyHash(h20, &mainNetParams)
 		return a.EncodeAddress(), nil // foreign network
+	case 11: // a valid address of this network wrapped in white space: not an address
+		a, _ := btcutil.NewAddressWitnessPubKeyHash(h20, btcNet)
+		return []string{" ", "\t", "\n", ""}[r.Intn(4)] + a.EncodeAddress() + []string{" ", "\n", "  "}[r.Intn(3)], nil
 	default:
 		return "not-an-address-" + fmt.Sprint(r.Intn(100)), nil
 	}
